@@ -180,6 +180,9 @@ func (env *rangeEnv) analyse(fn *ssa.Function) *ranger {
 	a.keyMemo = map[ssa.Value]string{}
 	a.numberLoads()
 	a.collectFacts()
+	if a.sortLessFacts() {
+		a.memo = map[ssa.Value]lin{}
+	}
 	if pre, ok := assumedPre[normPath(fn.String())]; ok {
 		pre.add(a)
 		a.memo = map[ssa.Value]lin{}
@@ -1162,4 +1165,73 @@ func (a *ranger) resourceObligations() []*resObl {
 		out = append(out, o)
 	}
 	return out
+}
+
+
+// sortLessFacts: a closure used only as the `less` argument of sort.Slice / sort.SliceStable on a
+// captured slice variable receives indices 0 <= i, j < len(slice) (contract of package sort; the
+// sort swaps elements and never changes the length).
+func (a *ranger) sortLessFacts() bool {
+	fn := a.fn
+	par := fn.Parent()
+	if par == nil || len(fn.Params) != 2 || !isIntT(fn.Params[0].Type()) || !isIntT(fn.Params[1].Type()) {
+		return false
+	}
+	var fv *ssa.FreeVar
+	uses := 0
+	for _, b := range par.Blocks {
+		for _, ins := range b.Instrs {
+			mc, ok := ins.(*ssa.MakeClosure)
+			if !ok || mc.Fn != ssa.Value(fn) {
+				continue
+			}
+			for _, u := range *mc.Referrers() {
+				if _, dbg := u.(*ssa.DebugRef); dbg {
+					continue
+				}
+				uses++
+				c, ok := u.(*ssa.Call)
+				if !ok {
+					return false
+				}
+				cal := c.Call.StaticCallee()
+				if cal == nil || cal.Pkg == nil || cal.Pkg.Pkg.Path() != "sort" || (cal.Name() != "Slice" && cal.Name() != "SliceStable") || len(c.Call.Args) != 2 || c.Call.Args[1] != ssa.Value(mc) {
+					return false
+				}
+				mi, ok := c.Call.Args[0].(*ssa.MakeInterface)
+				if !ok {
+					return false
+				}
+				ld, ok := mi.X.(*ssa.UnOp)
+				if !ok || ld.Op != token.MUL {
+					return false
+				}
+				for k, bnd := range mc.Bindings {
+					if bnd == ld.X && k < len(fn.FreeVars) {
+						fv = fn.FreeVars[k]
+					}
+				}
+			}
+		}
+	}
+	if fv == nil || uses != 1 {
+		return false
+	}
+	entry := fn.Blocks[0]
+	added := false
+	for _, b := range fn.Blocks {
+		for _, ins := range b.Instrs {
+			u, ok := ins.(*ssa.UnOp)
+			if !ok || u.Op != token.MUL || u.X != ssa.Value(fv) {
+				continue
+			}
+			L := a.lenOf(u, entry)
+			for _, p := range fn.Params {
+				i := a.lin(p, entry)
+				a.intr = append(a.intr, le(konst64(0), i), lt(i, L))
+			}
+			added = true
+		}
+	}
+	return added
 }
